@@ -7,6 +7,7 @@ import (
 	"math"
 	"math/rand"
 	"sort"
+	"strconv"
 	"strings"
 
 	"verif/cfg"
@@ -549,6 +550,44 @@ func Behaviour(r *rand.Rand, o Opts) *cfg.Config {
 				}
 			}
 			c.Decorators = append(c.Decorators, d)
+		}
+	}
+	// decorators whose argument lists print alike but are different values: 8080 / "8080", 7 / 7.0, true / "true", null / "<nil>"
+	if len(c.Decorators) > 0 && g.chance(0.35) {
+		src := c.Decorators[g.pick(len(c.Decorators))]
+		tw := cfg.Decorator{Tag: src.Tag, Decorator: src.Decorator}
+		if len(src.Args) == 0 || g.chance(0.4) {
+			n := int64(g.pick(9000))
+			src2 := src
+			src2.Args = []cfg.Val{cfg.Int(n), cfg.Bool(true), cfg.Null()}
+			if strings.HasSuffix(src.Decorator, "DecErr") {
+				src2.Args = append([]cfg.Val{cfg.Str("ok")}, src2.Args...)
+			}
+			c.Decorators = append(c.Decorators, src2)
+			src = src2
+		}
+		changed := false
+		for _, a := range src.Args {
+			switch a.Kind {
+			case "int":
+				if g.chance(0.5) {
+					tw.Args = append(tw.Args, cfg.Str(strconv.FormatInt(a.I, 10)))
+				} else {
+					tw.Args = append(tw.Args, cfg.Float(float64(a.I), fmt.Sprintf("%d.0", a.I)))
+				}
+				changed = changed || (a.I > -1<<50 && a.I < 1<<50)
+			case "bool":
+				tw.Args = append(tw.Args, cfg.Str(strconv.FormatBool(a.B)))
+				changed = true
+			case "null":
+				tw.Args = append(tw.Args, cfg.Str("<nil>"))
+				changed = true
+			default:
+				tw.Args = append(tw.Args, a)
+			}
+		}
+		if changed {
+			c.Decorators = append(c.Decorators, tw)
 		}
 	}
 	// the same decorator may be declared more than once (also in different files): it is applied once per declaration
